@@ -174,6 +174,8 @@ def run_config(ctx, rep, cfg, F):
             hook = C.recursion_summary_hook(F, "PrefixMap::_retain", 1)
             paths = ctx.paths(F, "PrefixMap::_retain", {"loop_bound": 2, "hooks": {"call": hook}}, tag="rec1")
             check_paths(rep, F, "R04.1", "PrefixMap::_retain", paths, sample_done)
+            for where, rpaths in C.retain_paths(ctx, F):
+                check_paths(rep, F, "R04.1", where, rpaths, sample_done)
             analysed.add("PrefixMap::_retain")
             entered |= C.functions_entered(paths)
         # ---- coverage of the MIR-derived mutator set (fail closed on an uninterpreted site)
